@@ -15,11 +15,13 @@ def _common(chk, opts, cmd, expect, rule):
     for e in events:
         op = json.loads(e)["op"]
         counts[op] = counts.get(op, 0) + 1
-    if counts != expect:
+    lower = {k: v for k, v in expect.items() if isinstance(v, tuple)}
+    exact = {k: v for k, v in expect.items() if not isinstance(v, tuple)}
+    if {k: counts.get(k) for k in exact} != exact or any(counts.get(k, 0) < v[0] for k, v in lower.items()) or set(counts) - set(expect):
         raise ToolError("recorder produced %s, expected %s" % (counts, expect))
     for i in bad:
         ev = json.loads(events[i - 1])
-        sig = {k: ev[k] for k in ev if k in ("op", "id", "bit", "s", "a", "b", "kind", "form", "c", "r")}
+        sig = {k: ev[k] for k in ev if k in ("op", "id", "bit", "s", "a", "b", "kind", "form", "c", "r", "route", "h", "k", "first", "second")}
         chk.violation("event %d not allowed by Cards.tla: %s" % (i, events[i - 1][:300]), sig,
                       {"gen": [cmd], "events": [ev]})
     for i in (1, len(events) // 3, len(events) // 2, len(events) - 1):
@@ -64,9 +66,11 @@ def c13(chk, opts):
 
 
 def c14(chk, opts):
-    return _common(chk, opts, "c14", {"pair": 2652},
+    return _common(chk, opts, "c14", {"pair": 2652, "twin": 1872, "route": (7000,)},
                    "all 52 x 51 ordered pairs of distinct cards: construction in both orders, equality, two hashers, "
-                   "canonical order, text, parse of both textual orders, map insertion")
+                   "canonical order, text, parse of both textual orders, map insertion; for the 1,872 pairs of different rank and suit: the text, "
+                   "its suit-swapped twin and the text again parsed back to back; every pair value obtained through RankPair::into_iter (both "
+                   "rank orders), a parsed single-rank-pair token and a parsed range must be the canonical value of its two cards")
 
 
 CHECKS = {"C13": c13, "C14": c14}
